@@ -2,7 +2,7 @@
 # usage: verify_seed.sh <PROP> <n>   (seed in /tmp/seed-<PROP>/<n>, built worktree /tmp/wt-<PROP>)
 # Confirms: patch applies and compiles, test suite result unchanged, demo passes
 # without the patch and fails with it. Writes /tmp/seed-<PROP>/<n>/verify.json
-id=$1; n=$2; wt=/tmp/wt-$id; sd=/tmp/seed-$id/$n
+id=$1; n=$2; wt=${WT:-/tmp/wt-$id}; sd=/tmp/seed-$id/$n
 L="-L$wt/lib/upipe/.libs -L$wt/lib/upipe-modules/.libs -L$wt/lib/upump-ev/.libs -L$wt/lib/upipe-pthread/.libs"
 LP="$wt/lib/upipe/.libs:$wt/lib/upipe-modules/.libs:$wt/lib/upump-ev/.libs:$wt/lib/upipe-pthread/.libs"
 demo() { # build+run demo, echo exit code
@@ -22,7 +22,12 @@ if make -C $wt -j16 >$sd/make.log 2>&1; then built=true; else built=false; fi
 suite=run
 if ! grep '^+++ b/' $sd/patch.diff | grep -qv -e '^+++ b/lib/upipe-ts/' -e '^+++ b/lib/upipe-framers/'; then suite=unaffected; fi
 if [ $suite = run ]; then
-  flock /tmp/upipe-tests.lock make -k -C $wt/tests check -j16 >$sd/check.log 2>&1
+  # own network namespace: the UDP tests of concurrent suites cannot collide, no lock needed
+  if unshare -n true 2>/dev/null; then
+    unshare -n sh -c "ip link set lo up; make -k -C $wt/tests check -j8" >$sd/check.log 2>&1
+  else
+    flock /tmp/upipe-tests.lock make -k -C $wt/tests check -j16 >$sd/check.log 2>&1
+  fi
   pass=$(grep -c '^PASS:' $sd/check.log); fail=$(grep '^FAIL:' $sd/check.log | tr '\n' ' ')
 else
   pass=82; fail="FAIL: upipe_m3u_reader_test.sh "
